@@ -246,6 +246,28 @@ def do_call(data, call, disk, prefix, record=True):
     return res, exc, [type(x.message).__name__ for x in wl], out, plan
 
 
+def freeze_arrays(obj, _seen=None):
+    """Every numpy array reachable from the object becomes read-only (in place); returns the object."""
+    import attrs
+
+    _seen = set() if _seen is None else _seen
+    if id(obj) in _seen:
+        return obj
+    _seen.add(id(obj))
+    if isinstance(obj, np.ndarray):
+        obj.setflags(write=False)
+    elif isinstance(obj, dict):
+        for v in obj.values():
+            freeze_arrays(v, _seen)
+    elif isinstance(obj, (list, tuple)):
+        for v in obj:
+            freeze_arrays(v, _seen)
+    elif attrs.has(type(obj)):
+        for f in attrs.fields(type(obj)):
+            freeze_arrays(object.__getattribute__(obj, f.name), _seen)
+    return obj
+
+
 def run_history(trace, stats=None):
     out = []
     data = gen.build(trace["obj"])
@@ -282,6 +304,18 @@ def run_history(trace, stats=None):
                             stats.inc("probe.conversions_checked")
             if exc is None and not plan.fired and not call.get("many") and call["fmt"] in RELOAD_FORMATS:
                 out.extend(check_written_file(data, call, disk, path, trace, stats))
+            if trace.get("readonly") and not call.get("faults"):
+                # a caller may hand over arrays it cannot (or must not) write to: memory-mapped files, arrays frozen with
+                # setflags(write=False).  A writer that leaves its argument alone behaves the same on such an object.
+                ro = freeze_arrays(copy.deepcopy(data))
+                _r2, exc2, _w2, path2, _p2 = do_call(ro, call, disk, f"h{k}ro/")
+                et2 = type(exc2).__name__ if exc2 is not None else "ok"
+                if et2 != et or (exc is None and disk.get(path2) != disk.get(path)):
+                    out.append(_v("needs_writable_argument", f"call #{k} {call['fmt']}: {et} with ordinary arrays but {et2}"
+                                  f"{': ' + str(exc2)[:120] if exc2 is not None else ' / other bytes'} when the object's arrays are read-only",
+                                  {**trace, "calls": trace["calls"][: k + 1]}, call["fmt"]))
+                if stats is not None:
+                    stats.inc("probe.readonly_argument_runs")
             if stats is not None:
                 stats.inc(f"outcome.{et}")
                 for kind, _k in plan.fired:
@@ -441,7 +475,7 @@ def gen_trace(rng):
                 c["faults"] = [{"kind": "close_fail", "errno": "EIO"}]
             elif r < 0.33:
                 c["faults"] = [{"kind": "disk_full", "capacity": rng.choice([0, 10, 100, 700, 5000])}]
-        return {"mode": "history", "obj": recipe, "calls": calls, "buffer_size": rng.choice([16, 8192])}
+        return {"mode": "history", "obj": recipe, "calls": calls, "buffer_size": rng.choice([16, 8192]), "readonly": rng.random() < 0.35}
     n = rng.randint(2, 4)
     calls = [call() for _ in range(n)]
     r = rng.random()
